@@ -2293,8 +2293,17 @@ pub fn c13(ix: &Index, prop: &'static str, sched: bool) -> Vec<Viol> {
             }
             if let Some(rs) = ix.by_name.get(a.name.as_str()) {
                 let mut pool = want_parents.clone();
+                // exact matches first, then expectations whose parent id is unknown to the harness
+                let mut rest = vec![];
                 for (_, r) in rs {
-                    if let Some(pos) = pool.iter().position(|(t, p)| *t == r.trace_id.0 && (p.is_none() || *p == Some(r.parent_id.0))) {
+                    if let Some(pos) = pool.iter().position(|(t, p)| *t == r.trace_id.0 && *p == Some(r.parent_id.0)) {
+                        pool.remove(pos);
+                    } else {
+                        rest.push(r);
+                    }
+                }
+                for r in rest {
+                    if let Some(pos) = pool.iter().position(|(t, p)| *t == r.trace_id.0 && p.is_none()) {
                         pool.remove(pos);
                     } else {
                         out.push(v(
